@@ -985,6 +985,10 @@ impl Debugger {
     /// * `pid`: thread id
     pub fn backtrace(&self, pid: Pid) -> Result<Backtrace, Error> {
         disable_when_not_stared!(self);
+        // a thread id taken from outside (DAP `stackTrace`) may name no thread of the debugee
+        if self.debugee.tracee_ctl().tracee(pid).is_none() {
+            return Err(Error::TraceeNotFound(pid.as_raw() as u32));
+        }
         self.debugee.unwind(pid)
     }
 
